@@ -182,7 +182,7 @@ pub struct Case {
 // ---------------------------------------------------------------- strategies
 
 fn addr_ix() -> BoxedStrategy<u8> {
-    prop_oneof![40 => 0u8..N_ACTORS as u8, 1 => N_ACTORS as u8..N_ADDR as u8].boxed()
+    prop_oneof![40 => 0u8..N_ACTORS as u8, 1 => N_ACTORS as u8..N_ADDR as u8, 3 => Just(N_ADDR as u8)].boxed()
 }
 /// denom of a coin inside a message
 fn denom_ix() -> BoxedStrategy<Den> {
@@ -664,6 +664,10 @@ impl<'a> Builder<'a> {
         cs.iter().map(|(d, a)| self.coin(d, a, is_send)).collect()
     }
     fn addr(&self, i: u8) -> String {
+        // index N_ADDR in a message field means the proxy's own address
+        if i as usize == N_ADDR {
+            return self.w.d.contract.to_string();
+        }
         self.w.addrs[i as usize % N_ADDR].clone()
     }
     fn val(&self, i: u8) -> String {
@@ -1157,6 +1161,11 @@ fn check_c08(w: &World, s: &Step, ok: bool, pre: &Obs, post: &Obs, at: &str, ctx
             if ok && !admin {
                 let p = &pre.allow[s.sender];
                 let q = &post.allow[s.sender];
+                // expiry judged by the documented Expiration semantics (expired when block >= expiry),
+                // independently of what the contract's own queries consider visible
+                if !d.is_empty() && is_expired(&p.expires, w.d.height, w.d.time) {
+                    return Err(v(prop, "spend-after-expiry", format!("{at}: a bank send was relayed although the subkey's allowance expired ({:?}) at height {} time {}", p.expires, w.d.height, w.d.time)));
+                }
                 for (denom, x) in &d {
                     if *x > u256(p.get(denom)) {
                         return Err(v(prop, "spend-exceeds-allowance", format!("{at}: relayed {x} {denom} with a visible (unexpired) allowance of {}", p.get(denom))));
